@@ -337,16 +337,18 @@ def check_bandpass(ctx, case):
         a[(slice(None),) + idx] = c_array(s, dtype)
         vals.append(ComparableArrayWrapper(a))
     sensor = make_cat(vals, events)
-    mo = ctx.model([[14, [3, [[wire_opv(v) for v in s] for s in segs], [q(f) for f in cf], [q(f) for f in df]]]])[0]
+    payload = [[[wire_opv(v) for v in s] for s in segs], [q(f) for f in cf], [q(f) for f in df]]
+    # model (follows the decisions regenerated from the source) and spec (documented decisions written out)
+    mo, sp = ctx.model([[14, [3] + payload], [14, [23] + payload]])
     with warnings.catch_warnings():
         warnings.simplefilter('ignore')
         out = calc_bandpass_correction(sensor, idx, np.array([float(f) for f in df]), np.array([float(f) for f in cf]))
     got = cat_segments(out)
-    bad = None
-    if list(out.events) != list(events) or len(got) != len(segs):
-        bad = ('events', list(map(int, out.events)), events, 0, 0)
-    else:
-        for k, ((st, v), m) in enumerate(zip(got, mo)):
+
+    def mismatch(ref):
+        if list(out.events) != list(events) or len(got) != len(segs):
+            return ('events', list(map(int, out.events)), events, 0, 0)
+        for k, ((st, v), m) in enumerate(zip(got, ref)):
             mv = [parse_opv(e) for e in m]
             if not same_array(v, mv):
                 j = [i for i, (z, e) in enumerate(zip(np.asarray(v).ravel(), mv)) if not same(z, e)]
@@ -356,12 +358,17 @@ def check_bandpass(ctx, case):
                 pos = ('allinvalid' if not valid_f else 'outside' if f is not None and (f < valid_f[0] or f > valid_f[-1])
                        else 'atvalid' if f in valid_f else 'inside')
                 nanflip = j < len(mv) and j < v.size and ((mv[j] is None) != bool(np.isnan(np.asarray(v).ravel()[j])))
-                bad = ('nan_structure' if nanflip else 'value', show(v), show_m(mv), pos, k)
-                break
+                return ('nan_structure' if nanflip else 'value', show(v), show_m(mv), pos, k)
+        return None
+    bad = mismatch(sp)
     if bad:
         ctx.disagree('kind=bandpass;at=%s;symptom=%s' % (bad[3], bad[0]), case, bad[1], bad[2],
                      'bandpass correction is not the reciprocal of the interpolation across invalid channels '
-                     '(INVALID outside the outermost valid channels)')
+                     '(INVALID outside the outermost valid channels)', spec=bad[2])
+    tie = mismatch(mo)
+    if tie:
+        ctx.disagree('kind=bandpass;at=%s;symptom=%s' % (tie[3], tie[0]), case, tie[1], tie[2],
+                     'calc_bandpass_correction differs from its model', kind='tie')
     ctx.traces_validated += 1
     nv = max(sum(v is not None for v in s) for s in segs)
     ctx.note_case(('B', repr(case)), nontrivial=nv >= 2, sample=case if len(cf) <= 3 else None)
@@ -467,17 +474,24 @@ def check_gain(ctx, case):
     if tg is not None:
         ev = [0] + [d for d in range(1, case['N']) if tg[d] != tg[d - 1]]
         targets = CategoricalData([tg[e] for e in ev], ev + [case['N']])
-    mo = ctx.model([[14, [4, case['N'], wire_sols(case['sols'], case['events']), [] if tg is None else [tg]]]])[0]
+    payload = [case['N'], wire_sols(case['sols'], case['events']), [] if tg is None else [tg]]
+    mo, sp = ctx.model([[14, [4] + payload], [14, [24] + payload]])
     mo = [[parse_opv(e) for e in row] for row in mo]
+    sp = [[parse_opv(e) for e in row] for row in sp]
     with warnings.catch_warnings():
         warnings.simplefilter('ignore')
         out = calc_gain_correction(sensor, tuple(case['index']), targets)
-    pos, sym = gain_symptom(case, out, mo)
+    pos, sym = gain_symptom(case, out, sp)
     if sym:
         ctx.disagree('kind=gain;selfcal=%s;at=%s;symptom=%s' % (tg is not None, pos, sym), case,
                      show(out), show_m(itertools.chain(*mo)),
                      'gain correction is not the reciprocal of the time interpolation of the valid '
-                     '(same-target) solutions, held before the first / after the last')
+                     '(same-target) solutions, held before the first / after the last',
+                     spec=show_m(itertools.chain(*sp)))
+    pos, sym = gain_symptom(case, out, mo)
+    if sym:
+        ctx.disagree('kind=gain;selfcal=%s;at=%s;symptom=%s' % (tg is not None, pos, sym), case,
+                     show(out), show_m(itertools.chain(*mo)), 'calc_gain_correction differs from its model', kind='tie')
     ctx.traces_validated += 1
     nv = sum(1 for s in case['sols'] if s is not None and any(v is not None for v in s))
     ctx.note_case(('G', repr(case)), nontrivial=nv >= 2, sample=case if case['N'] <= 5 else None)
@@ -828,7 +842,10 @@ def check_end_to_end(ctx, case):
     cf = [Fr(float(f)) for f in cal_freqs]
     bad = None
     # which calculator: the model's dispatch table (regenerated from calc_correction_per_input), not the harness
-    kind = ctx.model([[142, [0, codes(ptype)]]])[0]
+    kind, skind = ctx.model([[142, [0, codes(ptype)]], [142, [10, codes(ptype)]]])
+    if kind != skind:
+        ctx.disagree('kind=e2e;type=%s;symptom=dispatch_table' % ptype, case, kind, kind,
+                     'the calculator chosen for this product type is not the documented one', spec=skind)
     if kind == [0]:
         mo = ctx.model([[14, [2, [[] if s[0] is None else [q(Fr(s[0]))] for s in sols], [q(f) for f in data_freqs]]]])[0]
         got = cat_segments(out)
@@ -838,7 +855,7 @@ def check_end_to_end(ctx, case):
         if [e for e, _ in got] != events:
             bad = 'events'
     elif kind == [1]:
-        mo = ctx.model([[14, [3, [[wire_opv(None if v is None else (Fr(v[0]), Fr(v[1]))) for v in s] for s in sols],
+        mo = ctx.model([[14, [23, [[wire_opv(None if v is None else (Fr(v[0]), Fr(v[1]))) for v in s] for s in sols],
                               [q(f) for f in cf], [q(f) for f in data_freqs]]]])[0]
         got = cat_segments(out)
         for (st, v), m in zip(got, mo):
@@ -850,12 +867,18 @@ def check_end_to_end(ctx, case):
         # flux calibration (or not) and per-target interpolation (or not) are decided by the model from the type
         fcase = dict(case, measured=case['measured'] or [])
         w = wire_flux(fcase, sols, events)
-        mo = ctx.model([[142, [1, codes(ptype), N] + w[1][1:] + [per_dump]]])[0]
+        mo, sp = ctx.model([[142, [1, codes(ptype), N] + w[1][1:] + [per_dump]],
+                            [142, [11, codes(ptype), N] + w[1][1:] + [per_dump]]])
         mo = [[parse_opv(e) for e in row] for row in mo[0]]
-        g = dict(N=N, events=events, sols=sols, targets=per_dump if kind[2] else None)
-        pos, sym = gain_symptom(g, out, mo)
+        sp = [[parse_opv(e) for e in row] for row in sp[0]]
+        g = dict(N=N, events=events, sols=sols, targets=per_dump if skind[2] else None)
+        pos, sym = gain_symptom(g, out, sp)
         if sym:
             bad = '%s@%s' % (sym, pos)
+        else:
+            pos, sym = gain_symptom(g, out, mo)
+            if sym:
+                bad = 'model:%s@%s' % (sym, pos)
     else:
         bad = 'no_calculator_in_model'
     if bad:
@@ -1519,7 +1542,7 @@ def check_two_sets(ctx, case):
             fm = ctx.model([wire_flux(fcase, sols, [0])])[0]
             wsols = [None if not m[1] else [None if not e else [str(fq(e[0][0])), str(fq(e[0][1]))] for e in m[1][0]]
                      for m in fm]
-            gm = ctx.model([[14, [4, cfg['T'], wire_sols(wsols, [0]), []]]])[0]
+            gm = ctx.model([[14, [24, cfg['T'], wire_sols(wsols, [0]), []]]])[0]
             gm = [[parse_opv(e) for e in row] for row in gm]
             try:
                 out = np.asarray(d.sensor['Calibration/Corrections/l1/G/' + inp])
